@@ -1,7 +1,7 @@
 import sys, importlib, time
 sys.path.insert(0, "/verif")
 from pyvc import verify as VF, run as R
-import contracts.hsm2dongle_core
+import checker; checker.load_contracts()
 names = sys.argv[1:]
 for key, cls in VF.CONTRACTS.items():
     if names and not any(n in key[1] for n in names):
